@@ -88,8 +88,10 @@ CHECKS = {
         text="Coq theorems over a state-machine model of the library state that survives a call (caller text slot, cache dicts, BEM "
              "default dict), for every history length, every world (pure pipeline parts abstract) and every probe: history_independent, "
              "every_call_independent, caller_cfg_preserved, cache_transparent, cache_entries_valid (inductive invariant), no_growth; "
-             "one refutation per pre-repair defect switch. Tied to the code by per-call state correspondence and by running the history "
-             "model over the real markup and stylesheet models. Oracle: random histories followed by a probe compared with the same call "
+             "one refutation per pre-repair defect switch; C08_markup_history_is_expand_markup (the world whose markup parts are the real "
+             "pipeline model: after ANY history a markup probe returns exactly expand_markup_str of the probe alone, also from any "
+             "starting state), C08_state_size_bounded, C08_cache_entry_origin. Tied to the code by per-call state correspondence and by "
+             "running the history model over the real markup and stylesheet models (the executed world is the one the theorem speaks about). Oracle: random histories followed by a probe compared with the same call "
              "in a fresh interpreter process; caller dict deep-equality; sizes of module containers and function defaults; gc-based "
              "reachability is support, not proof.",
         technique="Coq proof of an inductive invariant over fold_left step on a history state machine + model/implementation state correspondence + fresh-interpreter differential oracle",
@@ -201,7 +203,11 @@ CHECKS = {
         text="Coq theorems: layer order regenerated from the AST of config.merged_data equals the documented order; merged_lookup for all "
              "layer contents (most specific defining layer wins), untouched layers, unknown syntax fall-back, Config.__init__ slots; "
              "complete sweep of all 2^6 layer subsets x every syntax name x {options, snippets, variables} over the generated tables; "
-             "purity on a heap model with explicit aliasing. Exhaustive implementation table (evidence exhaustive: true) observed on "
+             "purity on a heap model with explicit aliasing; an expand model over the merged configuration (config_init, then what expand "
+             "reads, then the markup / stylesheet pipeline models): C20_expand_uses_merged, C20_canonical_form and "
+             "C20_expand_layers_congruent (layer contents with the same effective values give the same expansion, for every abbreviation); "
+             "values behind the table ids regenerated from emmet/config.py (gen_configvals). The expand model is executed on every "
+             "expand-visible cell (markup: extracted; stylesheet: inside Coq). Exhaustive implementation table (evidence exhaustive: true) observed on "
              "Config(...) and through expand() output.",
         technique="Coq proof over association-list layers + fail-closed AST translation of merged_data/Config.__init__ + complete finite sweep over generated tables + exhaustive implementation table",
         ref="DESIGN.md §5 C20"),
